@@ -350,7 +350,7 @@ func check(c Case) (o h.Outcome) {
 
 // ---------------------------------------------------------------------------------------
 
-var tplPool = []string{"/a", "/a/{x}", "/a/b", "/{x}", "/{x}/b", "/a/{x}/b", "/a/{x}/{y}", "/{x}/{y}", "/b/{y}", "/b", "/a/b/c", "/a/{x}/c", "/{x}/b/{y}", "/a/b/{y}", "/a/p-{x}", "/a/p-b", "/a/{x}.json", "/a/b.json", "/a/{x}.{y}", "/{x}-{y}/b"}
+var tplPool = []string{"/a", "/a/{x}", "/a/b", "/{x}", "/{x}/b", "/a/{x}/b", "/a/{x}/{y}", "/{x}/{y}", "/b/{y}", "/b", "/a/b/c", "/a/{x}/c", "/{x}/b/{y}", "/a/b/{y}", "/a/p-{x}", "/a/p-b", "/a/{x}.json", "/a/b.json", "/a/{x}.{y}", "/{x}-{y}/b", "/a/{w}/d", "/{v}/d/{y}"}
 var methodSets = [][]string{{"GET"}, {"POST"}, {"GET", "POST"}, {"GET", "PUT", "DELETE"}}
 var servers = []string{"none", "/v1", "/api/{ver}", "http://h.example/base", "multi:/v1,/v10", "multi:/v10,/v1", "first:/one,/two", "/api/{ver}/{area}"}
 var values = []string{"1", "abc", "a.b", "x-y_z~", "b", "a"}
@@ -450,7 +450,7 @@ func requestsFor(c Case) []Case {
 
 func enumerate(shard, nshards int, yield func(Case)) {
 	idx := 0
-	small := []string{"/a", "/a/{x}", "/a/b", "/{x}", "/{x}/b", "/b/{y}", "/a/b/c", "/a/{x}/b", "/a/p-{x}", "/a/p-b"}
+	small := []string{"/a", "/a/{x}", "/a/b", "/{x}", "/{x}/b", "/b/{y}", "/a/b/c", "/a/{x}/b", "/a/p-{x}", "/a/p-b", "/a/{w}/d"}
 	for _, router := range []string{"gorillamux", "legacy"} {
 		for _, srv := range servers {
 			// all families of 1..2 templates (3 in the thorough tier) with a fixed method assignment
